@@ -1,7 +1,6 @@
 package internal
 
 import (
-	"bytes"
 	"fmt"
 	"io"
 
@@ -11,7 +10,6 @@ import (
 	"github.com/ipld/go-ipld-prime/node/basicnode"
 	"github.com/ipld/go-ipld-prime/schema"
 	peer "github.com/libp2p/go-libp2p/core/peer"
-	cbg "github.com/whyrusleeping/cbor-gen"
 
 	datatransfer "github.com/filecoin-project/go-data-transfer/v2"
 )
@@ -26,14 +24,12 @@ func (sn CborGenCompatibleNode) IsNull() bool {
 
 // UnmarshalCBOR is for cbor-gen compatibility
 func (sn *CborGenCompatibleNode) UnmarshalCBOR(r io.Reader) error {
-	// use cbg.Deferred.UnmarshalCBOR to figure out how much to pull
-	def := cbg.Deferred{}
-	if err := def.UnmarshalCBOR(r); err != nil {
-		return err
-	}
-	// convert it to a Node
+	// decode exactly one DAG-CBOR value from the stream and leave the rest for
+	// the caller. (cbg.Deferred cannot be used to find the extent of the value:
+	// it re-reads every head with cbor-gen's canonical-integer check, which
+	// rejects a 64-bit float whose bit pattern fits 32 bits, e.g. 0.0)
 	na := basicnode.Prototype.Any.NewBuilder()
-	if err := dagcbor.Decode(na, bytes.NewReader(def.Raw)); err != nil {
+	if err := (dagcbor.DecodeOptions{AllowLinks: true, DontParseBeyondEnd: true}).Decode(na, r); err != nil {
 		return err
 	}
 	sn.Node = na.Build()
